@@ -264,10 +264,49 @@ def second_pass(ctx, pairs, first):
         if len(a) + len(b) + len(c) < 2000:
             lines.append(C.hexs(CH) + "\t[ " + a + " " + b + " " + c + " ]")
             meta.append(("chain", k, CH))
+    # comparisons whose operands are TEMPORARIES (multi-select lists / hashes, function results), evaluated for many rows in ONE search: each row is
+    # answered on its own values (nothing remembered per operand position, address or call site carries over to the next row)
+    ROW = "[*].[[l] == [r], [l] != [r], {k: l} == {k: r}, [l, r] == [r, l], to_array(l) == to_array(r), [l] == [l], not_null(l, `0`) == not_null(r, `0`)]"
+    for _ in range(40 if ctx.tier == "quick" else 3000):
+        ks = [rng.choice(sel) for _ in range(rng.randrange(4, 14))] if sel else []
+        ks = [k for k in ks if len(pairs[k][0]) + len(pairs[k][1]) < 400]
+        if not ks:
+            continue
+        doc = "[ " + " ".join("{ s6c %s s72 %s }" % pairs[k] for k in ks) + " ]"
+        lines.append(C.hexs(ROW) + "\t" + doc)
+        meta.append(("rows", tuple(ks), ROW))
     impl, model = S.run_both(ctx, "eval", lines)
     for (kind, k, e), i, m in zip(meta, impl, model):
         ctx.evaluations += 1
-        a, b = pairs[k]
+        a, b = pairs[k] if kind != "rows" else (None, None)
+        if kind == "rows":
+            ok_ = True
+            got = (i or "NONE")
+            if (m or "NONE").split("\t")[0] != got:
+                ctx.tie_broken("stream eval (comparisons of temporaries over rows): model vs implementation", f"rows {list(k)[:4]}…: impl {got[:160]} model {(m or 'NONE')[:160]}")
+            import enc as E_
+            try:
+                rows = E_.parse(got[3:]) if got.startswith("ok ") else None
+            except Exception:
+                rows = None
+            if rows is None or len(rows) != len(k):
+                ctx.violation("eval", [pairs[k[0]][0], pairs[k[0]][1]], got[:300], "one answer list per row", "comparisons over rows did not evaluate (%s)" % ROW)
+                continue
+            for kk, row in zip(k, rows):
+                f_ = first[kk]
+                if not f_ or not f_.startswith("ok [ ") or len(f_[5:-2].split(" ")) != 10:
+                    continue
+                eq_, ne_ = f_[5:-2].split(" ")[:2]
+                want = [eq_ == "t", ne_ == "t", eq_ == "t", eq_ == "t", None, True, None]
+                for pos_, w_ in enumerate(want):
+                    if w_ is not None and row[pos_] is not w_:
+                        ctx.violation("eval", [pairs[kk][0], pairs[kk][1]], got[:300], "row answers equal to the answers for the pair alone",
+                                      "a comparison of temporaries inside a projection differs from the same comparison asked alone (expression %s, column %d)" % (ROW, pos_))
+                        ok_ = False
+                        break
+                if not ok_:
+                    break
+            continue
         f = first[k]
         if kind == "chain":
             a, b = pairs[k]
